@@ -175,6 +175,9 @@ def classify_crash(stderr, curtext, returncode, phase):
         fn = _first_repo_frame(stderr) or phase
         return "asan:%s@%s" % (kind, fn)
     um = re.search(r"(\S+?):(\d+):(\d+): runtime error: (.*)", stderr)
+    if um and (um.group(1).startswith(os.path.join(VERIF, "harness")) or um.group(1).startswith(os.path.join(VERIF, "rt"))):
+        # undefined behaviour in the harness itself is a harness failure, never a verdict
+        return "harness-bug:ubsan:%s:%s: %s" % (os.path.basename(um.group(1)), um.group(2), um.group(4)[:160])
     if um:
         msg = re.sub(r"0x[0-9a-f]+", "ADDR", um.group(4))
         msg = re.sub(r"-?\d+", "N", msg)
@@ -388,6 +391,11 @@ def run_pool(binp, build_name, prop, tier, seed, nworkers, rundir, dbits, extra_
                     res.inconclusive.append("single watchdog expiry at %s:%d (not reproduced)" % (phase, index))
             else:
                 key = classify_crash(stderr, curtext, rc, phase)
+                if key.startswith("harness-bug:"):
+                    for jj in live:
+                        if jj["p"].poll() is None:
+                            jj["p"].kill()
+                    raise HarnessFailure(key + "\n" + stderr[-3000:])
                 add_violation(key, phase, index, curtext[:3000], stderr[-6000:])
             res.restarts += 1
             if res.restarts > max_restarts:
